@@ -20,7 +20,7 @@ use crate::grin_core::core::transaction::{self, Transaction};
 use crate::grin_core::core::FeeFields;
 use crate::grin_core::global;
 use crate::grin_keychain::Keychain;
-use crate::grin_util::secp::key::SecretKey;
+use crate::grin_util::secp::key::{PublicKey, SecretKey};
 use crate::internal::{selection, tx, updater};
 use crate::slate_versions::SlateVersion;
 use crate::{
@@ -189,6 +189,31 @@ where
 						))
 					}
 				}
+			}
+
+			// Nothing is selected, reserved or written on the strength of a reply that does
+			// not carry the recipient's valid partial signature for this transaction: this
+			// function is reachable from the foreign API, and locking the inputs (and
+			// rewriting the stored context) for a forged reply would let anyone who has
+			// seen the slate id block the funds and destroy the pending transaction
+			{
+				let mut probe = sl.clone();
+				probe.amount = context.amount;
+				if let Some(f) = context.fee {
+					probe.fee_fields = f;
+				}
+				let own_excess = PublicKey::from_secret_key(keychain.secp(), &context.sec_key)?;
+				if !probe
+					.participant_data
+					.iter()
+					.any(|p| p.is_complete() && p.public_blind_excess != own_excess)
+				{
+					return Err(Error::Signature(
+						"Reply carries no partial signature from the recipient".to_owned(),
+					));
+				}
+				probe.add_participant_info(&keychain, &context, None)?;
+				probe.fill_round_2(&keychain, &context.sec_key, &context.sec_nonce)?;
 			}
 
 			let current_height = w.w2n_client().get_chain_tip()?.0;
